@@ -225,7 +225,45 @@ func checkOtel(c *Ctx, p *Prog, rule string) {
 		"eventbus.persist.errors": "persistErrors",
 	}
 	instr := map[string]string{}
-	if nf := p.Func(PkgOtel, "New"); nf != nil {
+	// an instrument field is whatever is assigned the result of a meter call whose name
+	// argument (at the call itself or at the call of the helper wrapping it) is one of the
+	// public metric names — wherever in the package that assignment sits
+	var constsOf func(v ssa.Value, d int) []string
+	constsOf = func(v ssa.Value, d int) []string {
+		if d > 4 {
+			return nil
+		}
+		switch x := stripConv(v).(type) {
+		case *ssa.Extract:
+			return constsOf(x.Tuple, d+1)
+		case *ssa.Call:
+			var out []string
+			for _, a := range x.Common().Args {
+				if k, ok := stripConv(a).(*ssa.Const); ok && k.Value != nil && k.Value.Kind() == constant.String {
+					out = append(out, constant.StringVal(k.Value))
+				}
+			}
+			return out
+		case *ssa.UnOp:
+			if al, ok := x.X.(*ssa.Alloc); ok {
+				var out []string
+				for _, ref := range *al.Referrers() {
+					if st, ok := ref.(*ssa.Store); ok && st.Addr == al {
+						out = append(out, constsOf(st.Val, d+1)...)
+					}
+				}
+				return out
+			}
+		case *ssa.Phi:
+			var out []string
+			for _, ed := range x.Edges {
+				out = append(out, constsOf(ed, d+1)...)
+			}
+			return out
+		}
+		return nil
+	}
+	for _, nf := range p.FuncsIn(PkgOtel) {
 		for _, b := range nf.Blocks {
 			for _, in := range b.Instrs {
 				st, ok := in.(*ssa.Store)
@@ -236,13 +274,9 @@ func checkOtel(c *Ctx, p *Prog, rule string) {
 				if !ok || tn != "Observability" {
 					continue
 				}
-				if ex, ok := stripConv(st.Val).(*ssa.Extract); ok {
-					if call, ok := ex.Tuple.(*ssa.Call); ok && call.Common().IsInvoke() && len(call.Common().Args) > 0 {
-						if k, ok := call.Common().Args[0].(*ssa.Const); ok && k.Value != nil {
-							if role, ok := byMetric[constant.StringVal(k.Value)]; ok {
-								instr[fld] = role
-							}
-						}
+				for _, name := range constsOf(st.Val, 0) {
+					if role, ok := byMetric[name]; ok {
+						instr[fld] = role
 					}
 				}
 			}
